@@ -165,7 +165,13 @@ def check_c15(pid, tier):
     )
 
 
-CHECKS = {"C15": check_c15, "C18": check_c18, "C02": check_g4, "C03": check_g4, "C05": check_g1, "C07": check_g1, "C09": check_g1, "C08": check_g2}
+def check_c17(pid, tier):
+    from . import c17
+
+    return c17.check(pid, tier)
+
+
+CHECKS = {"C17": check_c17, "C15": check_c15, "C18": check_c18, "C02": check_g4, "C03": check_g4, "C05": check_g1, "C07": check_g1, "C09": check_g1, "C08": check_g2}
 
 
 def main(argv):
